@@ -158,6 +158,9 @@ Section Structural.
       simpl. destruct (nth_error l k); reflexivity.
   Qed.
 
+  Lemma tag_same : forall i n (a : A), tag i n n a = setpos (Z.of_nat n) a.
+  Proof. intros i n a. unfold tag. rewrite Nat.eqb_refl, orb_true_r. reflexivity. Qed.
+
   (* unfolding lemmas *)
   Lemma up_S : forall f (l : list A) j,
       up lt setpos (S f) l j =
@@ -418,6 +421,22 @@ Section Structural.
     - intros ->. reflexivity.
   Qed.
 
+  (* the popped element is the old root, re-tagged by Swap(0, n) and by the user's Pop *)
+  Theorem h_pop_elem : forall l x l' a,
+      h_pop lt setpos l = Some (x, l') -> nth_error l 0 = Some a ->
+      x = setpos (-1)%Z (setpos (Z.of_nat (length l - 1)) a).
+  Proof.
+    intros l x l' a H Ha. unfold h_pop in H.
+    destruct (length l) as [|n] eqn:El; [discriminate|].
+    apply pop_last_spec in H. destruct H as (m & y & Hl & Hy & Hx & _ & _).
+    rewrite down_length, length_swap in Hl.
+    assert (Hm : m = n) by clia. subst m.
+    rewrite down_frame in Hy by apply le_n.
+    rewrite nth_swap, sw_r, Ha in Hy by clia. cbn [option_map] in Hy.
+    rewrite tag_same in Hy. injection Hy as <-.
+    replace (S n - 1) with n by clia. exact Hx.
+  Qed.
+
   Theorem h_pop_length : forall l x l', h_pop lt setpos l = Some (x, l') -> length l = S (length l').
   Proof.
     intros l x l' H. unfold h_pop in H.
@@ -471,6 +490,9 @@ Section Heap.
 
   Definition kids_ok (l : list A) (i n : nat) : Prop :=
     forall c, 0 < c -> c < n -> parent c = i -> ordered l i c.
+
+  Lemma heap_ok_nil : heap_ok [].
+  Proof. intros c Hc0 Hcn. cbn [length] in Hcn. clia. Qed.
 
   Lemma heap_ok_iff : forall l, heap_ok l <-> heap_on l 0 (length l).
   Proof.
@@ -747,6 +769,7 @@ Section Heap.
     intros l r Hl Hr y Hy. apply In_nth_error in Hy. destruct Hy as [i Hi].
     exact (root_min l r Hl Hr i y Hi).
   Qed.
+
   (* ---------------- Pop / Remove / Fix ---------------- *)
   Lemma heap_on_firstn : forall l n, heap_on l 0 n -> n <= length l -> heap_ok (firstn n l).
   Proof.
@@ -854,9 +877,6 @@ Section Heap.
     apply in_map_iff in Hin. destruct Hin as (y0 & Heq & Hy0).
     rewrite <- Heq. apply Hmin. exact Hy0.
   Qed.
-
-  Lemma tag_same : forall i n (a : A), tag setpos i n n a = setpos (Z.of_nat n) a.
-  Proof. intros i n a. unfold tag. rewrite Nat.eqb_refl, orb_true_r. reflexivity. Qed.
 
   (* the removed element is the old l[i], re-tagged by the Swap (if any) and by the user's Pop *)
   Lemma h_remove_heap : forall l i a,
@@ -969,3 +989,239 @@ Section Heap.
       rewrite <- Hpc. apply Hl; clia.
   Qed.
 End Heap.
+
+(* ------------------------------------------------------------------------------------------ *)
+(* Recorded positions.  Kept apart from Section Heap: [pos_setpos] is unsatisfiable for the
+   identity [setpos], so nothing above may depend on it. *)
+Section Positions.
+  Context {A : Type} (lt : A -> A -> bool) (setpos : Z -> A -> A) (pos : A -> Z).
+  Hypothesis pos_setpos : forall p x, pos (setpos p x) = p.
+
+  Definition positions_ok (l : list A) : Prop :=
+    forall i x, nth_error l i = Some x -> pos x = Z.of_nat i.
+
+  Lemma positions_ok_nil : positions_ok [].
+  Proof. intros i x Hx. destruct i; discriminate. Qed.
+
+  Lemma swap_pos : forall l i j, positions_ok l -> positions_ok (swap setpos l i j).
+  Proof using pos_setpos.
+    intros l i j Hl.
+    destruct (Nat.lt_ge_cases i (length l)) as [Hi|Hi]; [|rewrite swap_oob by auto; exact Hl].
+    destruct (Nat.lt_ge_cases j (length l)) as [Hj|Hj]; [|rewrite swap_oob by auto; exact Hl].
+    intros k x Hx. rewrite nth_swap_plain in Hx by assumption.
+    destruct (Nat.eqb_spec k j) as [ekj|nkj].
+    - subst k. destruct (nth_error l i) as [y|]; [|discriminate].
+      cbn [option_map] in Hx. injection Hx as <-. apply pos_setpos.
+    - destruct (Nat.eqb_spec k i) as [eki|nki].
+      + subst k. destruct (nth_error l j) as [y|]; [|discriminate].
+        cbn [option_map] in Hx. injection Hx as <-. apply pos_setpos.
+      + exact (Hl k x Hx).
+  Qed.
+
+  Lemma up_pos : forall f l j, positions_ok l -> positions_ok (up lt setpos f l j).
+  Proof using pos_setpos.
+    induction f as [|f IH]; intros l j Hl; [exact Hl|].
+    rewrite up_S. destruct ((parent j =? j) || negb (less lt l j (parent j))); [exact Hl|].
+    apply IH, swap_pos, Hl.
+  Qed.
+
+  Lemma down_pos : forall f l i n, positions_ok l -> positions_ok (fst (down lt setpos f l i n)).
+  Proof using pos_setpos.
+    induction f as [|f IH]; intros l i n Hl; [exact Hl|].
+    rewrite down_S. destruct (n <=? 2 * i + 1); [exact Hl|].
+    destruct (negb (less lt l (minchild lt l i n) i)); [exact Hl|].
+    apply IH, swap_pos, Hl.
+  Qed.
+
+  Lemma init_loop_pos : forall k l n, positions_ok l -> positions_ok (init_loop lt setpos k l n).
+  Proof using pos_setpos.
+    induction k as [|k IH]; intros l n Hl; [exact Hl|].
+    rewrite init_loop_S. apply IH, down_pos, Hl.
+  Qed.
+
+  Lemma fix_on_pos : forall f l i n, positions_ok l -> positions_ok (fix_on lt setpos f l i n).
+  Proof using pos_setpos.
+    intros f l i n Hl. unfold fix_on.
+    pose proof (down_pos f l i n Hl) as Hd.
+    destruct (down lt setpos f l i n) as [l' i']. cbn [fst] in Hd.
+    destruct (i <? i'); [exact Hd|]. apply up_pos, Hd.
+  Qed.
+
+  Lemma firstn_pos : forall l n, positions_ok l -> positions_ok (firstn n l).
+  Proof.
+    intros l n Hl k x Hx.
+    destruct (Nat.lt_ge_cases k n) as [Hk|Hk].
+    - rewrite nth_firstn in Hx by assumption. exact (Hl k x Hx).
+    - exfalso. assert (Hnone : nth_error (firstn n l) k = None).
+      { apply nth_error_None. pose proof (firstn_le_length n l) as Hle. clia. }
+      congruence.
+  Qed.
+
+  Lemma pop_last_pos : forall l x l',
+      positions_ok l -> pop_last setpos l = Some (x, l') -> positions_ok l' /\ pos x = (-1)%Z.
+  Proof using pos_setpos.
+    intros l x l' Hl H. apply pop_last_spec in H.
+    destruct H as (n & y & _ & _ & -> & -> & _).
+    split; [apply firstn_pos, Hl|apply pos_setpos].
+  Qed.
+
+  Theorem h_init_pos : forall l, positions_ok l -> positions_ok (h_init lt setpos l).
+  Proof using pos_setpos. intros l Hl. unfold h_init. apply init_loop_pos, Hl. Qed.
+
+  Theorem h_push_pos : forall l x, positions_ok l -> positions_ok (h_push lt setpos l x).
+  Proof using pos_setpos.
+    intros l x Hl. unfold h_push. apply up_pos.
+    intros k y Hy.
+    destruct (Nat.lt_ge_cases k (length l)) as [Hk|Hk].
+    - rewrite nth_error_app1 in Hy by assumption. exact (Hl k y Hy).
+    - rewrite nth_error_app2 in Hy by assumption.
+      destruct (k - length l) as [|d] eqn:Ed.
+      + cbn in Hy. injection Hy as <-. rewrite pos_setpos. f_equal. clia.
+      + destruct d; discriminate.
+  Qed.
+
+  Theorem h_pop_pos : forall l x l',
+      positions_ok l -> h_pop lt setpos l = Some (x, l') -> positions_ok l' /\ pos x = (-1)%Z.
+  Proof using pos_setpos.
+    intros l x l' Hl H. unfold h_pop in H.
+    destruct (length l) as [|n]; [discriminate|].
+    apply pop_last_pos in H; [exact H|]. apply down_pos, swap_pos, Hl.
+  Qed.
+
+  Theorem h_fix_pos : forall l i, positions_ok l -> positions_ok (h_fix lt setpos l i).
+  Proof using pos_setpos. intros l i Hl. apply (fix_on_pos (length l) l i (length l) Hl). Qed.
+
+  Theorem h_remove_pos : forall l i x l',
+      positions_ok l -> h_remove lt setpos l i = Some (x, l') -> positions_ok l' /\ pos x = (-1)%Z.
+  Proof using pos_setpos.
+    intros l i x l' Hl H. rewrite h_remove_eq in H.
+    destruct (length l) as [|n]; [discriminate|].
+    destruct (n <? i); [discriminate|].
+    destruct (n =? i).
+    - exact (pop_last_pos l x l' Hl H).
+    - apply pop_last_pos in H; [exact H|]. apply fix_on_pos, swap_pos, Hl.
+  Qed.
+End Positions.
+
+(* ------------------------------------------------------------------------------------------ *)
+(* A closed instance: elements are (key, position) pairs ordered by key.  Shows that the
+   hypotheses of the sections above are jointly satisfiable and the theorems are not vacuous. *)
+Module GoHeapInstance.
+  Definition zz_lt (x y : Z * Z) : bool := Z.ltb (fst x) (fst y).
+  Definition zz_setpos (p : Z) (x : Z * Z) : Z * Z := (fst x, p).
+  Definition zz_key (x : Z * Z) : Z := fst x.
+  Definition zz_pos (x : Z * Z) : Z := snd x.
+
+  Lemma zz_lt_setpos_l : forall p x y, zz_lt (zz_setpos p x) y = zz_lt x y.
+  Proof. reflexivity. Qed.
+  Lemma zz_lt_setpos_r : forall p x y, zz_lt x (zz_setpos p y) = zz_lt x y.
+  Proof. reflexivity. Qed.
+  Lemma zz_le_total : forall x y, le zz_lt x y = true \/ le zz_lt y x = true.
+  Proof.
+    intros x y. unfold le, zz_lt. rewrite !negb_true_iff, !Z.ltb_ge. lia.
+  Qed.
+  Lemma zz_le_trans : forall x y z,
+      le zz_lt x y = true -> le zz_lt y z = true -> le zz_lt x z = true.
+  Proof.
+    intros x y z. unfold le, zz_lt. rewrite !negb_true_iff, !Z.ltb_ge. lia.
+  Qed.
+  Lemma zz_key_setpos : forall p x, zz_key (zz_setpos p x) = zz_key x.
+  Proof. reflexivity. Qed.
+  Lemma zz_pos_setpos : forall p x, zz_pos (zz_setpos p x) = p.
+  Proof. reflexivity. Qed.
+
+  Notation ok := (heap_ok zz_lt).
+  Notation posok := (positions_ok zz_pos).
+
+  Definition zz_h_init_ok : forall l, ok (h_init zz_lt zz_setpos l) :=
+    h_init_ok zz_lt zz_setpos zz_lt_setpos_l zz_lt_setpos_r zz_le_total zz_le_trans.
+  Definition zz_h_init_perm :
+    forall l, Permutation (map zz_key (h_init zz_lt zz_setpos l)) (map zz_key l) :=
+    h_init_perm zz_lt zz_setpos zz_key zz_key_setpos.
+  Definition zz_h_push_ok : forall l x, ok l -> ok (h_push zz_lt zz_setpos l x) :=
+    h_push_ok zz_lt zz_setpos zz_lt_setpos_l zz_lt_setpos_r zz_le_total zz_le_trans.
+  Definition zz_h_push_perm :
+    forall l x, Permutation (map zz_key (h_push zz_lt zz_setpos l x)) (zz_key x :: map zz_key l) :=
+    h_push_perm zz_lt zz_setpos zz_key zz_key_setpos.
+  Definition zz_h_pop_ok :
+    forall l x l', ok l -> h_pop zz_lt zz_setpos l = Some (x, l') ->
+      ok l' /\ Permutation (zz_key x :: map zz_key l') (map zz_key l) /\
+      (forall y, In y l -> le zz_lt x y = true) :=
+    h_pop_ok zz_lt zz_setpos zz_key zz_lt_setpos_l zz_lt_setpos_r zz_le_total zz_le_trans
+             zz_key_setpos.
+  Definition zz_h_remove_ok :
+    forall l i a, ok l -> nth_error l i = Some a ->
+      exists x l', h_remove zz_lt zz_setpos l i = Some (x, l') /\ ok l' /\
+                   zz_key x = zz_key a /\ Permutation (zz_key x :: map zz_key l') (map zz_key l) :=
+    h_remove_ok zz_lt zz_setpos zz_key zz_lt_setpos_l zz_lt_setpos_r zz_le_total zz_le_trans
+                zz_key_setpos.
+  Definition zz_h_fix_ok :
+    forall l i, hole_ok zz_lt l i -> i < length l ->
+      ok (h_fix zz_lt zz_setpos l i) /\
+      Permutation (map zz_key (h_fix zz_lt zz_setpos l i)) (map zz_key l) :=
+    h_fix_ok zz_lt zz_setpos zz_key zz_lt_setpos_l zz_lt_setpos_r zz_le_total zz_le_trans
+             zz_key_setpos.
+  Definition zz_h_fix_after_update :
+    forall l i x x', ok l -> nth_error l i = Some x -> ok (h_fix zz_lt zz_setpos (upd l i x') i) :=
+    h_fix_after_update zz_lt zz_setpos zz_lt_setpos_l zz_lt_setpos_r zz_le_total zz_le_trans.
+  Definition zz_root_min :
+    forall l r, ok l -> nth_error l 0 = Some r ->
+      forall i x, nth_error l i = Some x -> le zz_lt r x = true :=
+    root_min zz_lt zz_le_total zz_le_trans.
+  Definition zz_h_push_pos : forall l x, posok l -> posok (h_push zz_lt zz_setpos l x) :=
+    h_push_pos zz_lt zz_setpos zz_pos zz_pos_setpos.
+  Definition zz_h_pop_pos :
+    forall l x l', posok l -> h_pop zz_lt zz_setpos l = Some (x, l') ->
+      posok l' /\ zz_pos x = (-1)%Z :=
+    h_pop_pos zz_lt zz_setpos zz_pos zz_pos_setpos.
+  Definition zz_h_remove_pos :
+    forall l i x l', posok l -> h_remove zz_lt zz_setpos l i = Some (x, l') ->
+      posok l' /\ zz_pos x = (-1)%Z :=
+    h_remove_pos zz_lt zz_setpos zz_pos zz_pos_setpos.
+  Definition zz_h_fix_pos : forall l i, posok l -> posok (h_fix zz_lt zz_setpos l i) :=
+    h_fix_pos zz_lt zz_setpos zz_pos zz_pos_setpos.
+  Definition zz_h_init_pos : forall l, posok l -> posok (h_init zz_lt zz_setpos l) :=
+    h_init_pos zz_lt zz_setpos zz_pos zz_pos_setpos.
+
+  (* the heap built by pushing 5, 3, 8, 1, 4 (new elements carry a junk position 99) *)
+  Definition push_all (ks : list Z) : list (Z * Z) :=
+    fold_left (fun l k => h_push zz_lt zz_setpos l (k, 99%Z)) ks [].
+  Definition h5 : list (Z * Z) := push_all [5; 3; 8; 1; 4]%Z.
+
+  Example h5_value : h5 = [(1, 0); (3, 1); (8, 2); (5, 3); (4, 4)]%Z.
+  Proof. vm_compute. reflexivity. Qed.
+
+  Example h5_pop :
+    h_pop zz_lt zz_setpos h5 = Some ((1, -1)%Z, [(3, 0); (4, 1); (8, 2); (5, 3)]%Z).
+  Proof. vm_compute. reflexivity. Qed.
+
+  Example h5_remove_1 :
+    h_remove zz_lt zz_setpos h5 1 = Some ((3, -1)%Z, [(1, 0); (4, 1); (8, 2); (5, 3)]%Z).
+  Proof. vm_compute. reflexivity. Qed.
+
+  Example h5_fix_0 :
+    h_fix zz_lt zz_setpos (upd h5 0 (9, 0)%Z) 0 = [(3, 0); (4, 1); (8, 2); (5, 3); (9, 4)]%Z.
+  Proof. vm_compute. reflexivity. Qed.
+
+  Example init_6 :
+    h_init zz_lt zz_setpos [(5, 0); (3, 1); (8, 2); (1, 3); (4, 4); (0, 5)]%Z
+    = [(0, 0); (1, 1); (5, 2); (3, 3); (4, 4); (8, 5)]%Z.
+  Proof. vm_compute. reflexivity. Qed.
+
+  (* the theorems apply: h5 is a heap with correct positions, by five uses of the Push theorems *)
+  Example h5_ok : ok h5 /\ posok h5.
+  Proof.
+    unfold h5, push_all. cbn [fold_left]. split.
+    - repeat apply zz_h_push_ok. apply heap_ok_nil.
+    - repeat apply zz_h_push_pos. apply positions_ok_nil.
+  Qed.
+
+  (* ... hence so is what Pop leaves, and the popped key is minimal *)
+  Example h5_pop_ok :
+    ok [(3, 0); (4, 1); (8, 2); (5, 3)]%Z /\ posok [(3, 0); (4, 1); (8, 2); (5, 3)]%Z.
+  Proof.
+    destruct h5_ok as [Hok Hpos]. split.
+    - exact (proj1 (zz_h_pop_ok _ _ _ Hok h5_pop)).
+    - exact (proj1 (zz_h_pop_pos _ _ _ Hpos h5_pop)).
+  Qed.
+End GoHeapInstance.
